@@ -660,7 +660,8 @@ func (x *Exec) applyContract(st *State, fr *Frame, callee *ssa.Function, con *Co
 	}
 	// remember the results of the latest call of this callee on the path (callret/called in check clauses);
 	// only calls made by the function under verification itself
-	if fr != nil && fr.parent == nil {
+	if fr != nil {
+		// (also calls made from inlined callees and closures of the function under verification)
 		nm := funcName(callee)
 		st.ghost["called:"+nm] = "true"
 		if st.callVals == nil {
